@@ -59,7 +59,7 @@ impl Property for C05 {
         "C05"
     }
     fn rule(&self) -> String {
-        "Cases: (operand of any zoo type/length/provenance, shift amount of one of six native types, direction, one of six operator forms) and (operand, shl_in|shr_in, supplied bit). Amounts: relative to the length (0..2n+1), a lattice {0,1,w-1,w,w+1,n-1,n,n+1,2n,2^8-1,2^16,2^32,2^64-1,2^64,2^64+1,2^64+n-1,2^100,type max}, and uniform over the whole type. Enumerated: every (n,k), n<=min(C,72) quick / 320 thorough, k in 0..n+2, three value classes, 20 types, both directions, amount type and form rotating over all 36 combinations (all 36 for n<=20); all values for n<=8; shl_in/shr_in on all values n<=10 and every length with three value classes. Oracle: index arithmetic on the bit list + observer battery; returned bit of shl_in/shr_in. Non-trivial: 0<k<n with some set bit surviving and some set bit falling off; for shl_in/shr_in: n>=2. Distinct by hash of the case.".into()
+        "Cases: (operand of any zoo type/length/provenance, shift amount of one of six native types, direction, one of six operator forms) and (operand, shl_in|shr_in, supplied bit). Amounts: relative to the length (0..2n+1), a lattice {0,1,w-1,w,w+1,n-1,n,n+1,2n,2^8-1,2^16,2^32,2^64-1,2^64,2^64+1,2^64+n-1,2^100,type max}, and uniform over the whole type. Enumerated: every (n,k), n<=min(C,72) quick / 320 thorough, k in 0..n+2, three value classes, 20 types, both directions, amount type and form rotating over all 36 combinations (all 36 for n<=20); all values for n<=8; shl_in/shr_in on all values n<=10 and every length with three value classes; long vectors: every length 321..2600 (thorough 8300), Bvd/Bv at 1100..4100 bits, the 70 400-bit fixed type at 7 lengths x 18 amounts, and a geometric ladder of lengths around every power of two from 2^14 to 2^21 (thorough 2^24) bits x 10 amounts. Oracle: index arithmetic on the bit list + observer battery; returned bit of shl_in/shr_in. Non-trivial: 0<k<n with some set bit surviving and some set bit falling off; for shl_in/shr_in: n>=2. Distinct by hash of the case.".into()
     }
     fn random_cases(&self, tier: Tier) -> u64 {
         tier.pick(200000, 8000000)
@@ -87,7 +87,7 @@ impl Property for C05 {
     fn enumerate(&self, tier: Tier, sh: &mut Shard, f: &mut dyn FnMut(C05Case) -> bool) {
         let nmax = tier.pick(72, 320);
         let mut rot = 0usize;
-        for t in 0..NT {
+        for t in ROUTINE_TIDS {
             let c = fixed_cap(t).unwrap_or(nmax).min(nmax);
             for n in 0..=c {
                 if !sh.mine() {
@@ -170,6 +170,58 @@ impl Property for C05 {
                 }
             }
         }
+        // the 70 400-bit fixed type: all six forms, amounts around word, 4096-bit and 2^16 boundaries
+        for n in HUGE_TYPE_LENS {
+            if !sh.mine() {
+                continue;
+            }
+            let ks = [1usize, 13, 63, 64, 65, 1024, 4095, 4096, 4099, 8191, 8200, 65535, 65536, 65540, n / 2 + 5, n.saturating_sub(64), n - 1, n];
+            for a in [long_values(n)[1].clone(), Bits::ones(n)] {
+                for &k in &ks {
+                    if k > n {
+                        continue;
+                    }
+                    for left in [true, false] {
+                        rot += 1;
+                        for form in [SH_FORMS[rot % 6], SH_FORMS[(rot + 3) % 6]] {
+                            if !f(C05Case::Shift { a: Operand::canon(TID_HUGE, a.clone()), amt: Nat::new(NatTy::Usize, k as u128), left, form }) {
+                                return;
+                            }
+                        }
+                    }
+                }
+                for left in [true, false] {
+                    if !f(C05Case::ShIn { a: Operand::canon(TID_HUGE, a.clone()), bit: true, left }) {
+                        return;
+                    }
+                }
+            }
+        }
+        // geometric ladder of lengths up to megabits on the unbounded types
+        for (t, n) in ladder_lengths(tier) {
+            if !sh.mine() {
+                continue;
+            }
+            let a = dense_value(n);
+            for (j, k) in [1usize, 5, 63, 64, 65, 4099, 65541, n / 2 + 3, n - 65, n - 1].into_iter().enumerate() {
+                if k >= n {
+                    continue;
+                }
+                rot += 1;
+                let left = (rot + j) % 2 == 0;
+                if !f(C05Case::Shift { a: Operand::canon(t, a.clone()), amt: Nat::new(NatTy::Usize, k as u128), left, form: SH_FORMS[rot % 6] }) {
+                    return;
+                }
+                if j % 3 == 0 && !f(C05Case::Shift { a: Operand { ty: t, bits: a.clone(), prov: Prov::Spare(200) }, amt: Nat::new(NatTy::U32, k as u128), left: !left, form: SH_FORMS[(rot + 1) % 6] }) {
+                    return;
+                }
+            }
+            for left in [true, false] {
+                if !f(C05Case::ShIn { a: Operand::canon(t, a.clone()), bit: true, left }) {
+                    return;
+                }
+            }
+        }
         // word-aligned amounts on vectors with spare capacity / heap-mode Bv, all six forms
         for t in [TID_D, TID_A] {
             for prov in [Prov::Spare(64), Prov::Spare(200), Prov::LongThenTrunc(130)] {
@@ -202,7 +254,7 @@ impl Property for C05 {
                 }
             }
         }
-        for t in 0..NT {
+        for t in ROUTINE_TIDS {
             if !sh.mine() {
                 continue;
             }
